@@ -471,6 +471,7 @@ func (m *Memberlist) handleCommand(buf []byte, from net.Addr, timestamp time.Tim
 		}
 
 		// Check for overflow and append if not full
+		verifYield("handoff", m)
 		m.msgQueueLock.Lock()
 		if queue.Len() >= m.config.HandoffQueueDepth {
 			m.logger.Printf("[WARN] memberlist: handler queue full, dropping message (%d) %s", msgType, LogAddress(from))
